@@ -167,9 +167,9 @@ impl Search {
         let cap = if q { 40_000 } else { 400_000 };
         let (n_shapes, stride) = if full <= cap { (full, 1) } else { (cap, full / cap) };
         let n_rand = match (which, q) {
-            (Which::C01, true) => 6_000, (Which::C01, false) => 150_000,
-            (Which::C11, true) => 2_500, (Which::C11, false) => 40_000,
-            (_, true) => 4_000, (_, false) => 80_000,
+            (Which::C01, true) => 40_000, (Which::C01, false) => 600_000,
+            (Which::C11, true) => 12_000, (Which::C11, false) => 150_000,
+            (Which::C05, true) => 20_000, (_, true) => 30_000, (_, false) => 400_000,
         };
         Search { which, tier, seed, feat, shapes, n_shapes, n_rand, shape_stride: stride }
     }
